@@ -137,6 +137,10 @@ func (r *CheckRun) harnessCfg(fn *ssa.Function) (Cfg, []string, []string) {
 	cfg := defaultCfg()
 	cfg.Workers = r.Workers
 	cfg.RepoDir = r.Repo
+	if len(r.loadKnown().Findings) == 0 {
+		// no known findings to tell apart: a handful of counterexamples is enough
+		cfg.StopAfterViolations = 4
+	}
 	if r.Solver != "" {
 		cfg.Solver = r.Solver
 	}
@@ -596,9 +600,12 @@ func (r *CheckRun) finish() int {
 		if ex.UnknownQ > 0 {
 			bad("%s: %d solver queries returned unknown", hr.Name, ex.UnknownQ)
 		}
+		if ex.StoppedEarly {
+			fmt.Printf("  note: %s: exploration stopped after %d violating paths (%d paths explored)\n", hr.Name, len(ex.Violations), ex.Paths)
+		}
 		for _, tag := range hr.Expect {
 			tag = strings.TrimPrefix(tag, "reach=")
-			if ex.ReachStats[tag] == 0 {
+			if ex.ReachStats[tag] == 0 && !ex.StoppedEarly {
 				bad("vacuity: %s never reached %q", hr.Name, tag)
 			}
 		}
